@@ -75,12 +75,17 @@ func (h *StreamHandler) Browse(req *BrowseRequest) *BrowseResponse {
 }
 
 // requirePath validates that the request has a non-empty path within allowed paths,
-// and returns the cleaned path. If validation fails, it returns an error response.
-func (h *StreamHandler) requirePath(path string) (string, *BrowseResponse) {
+// also after symbolic links are resolved, and returns the cleaned path. followFinal
+// says whether the action follows a link in the last path component. If validation
+// fails, it returns an error response.
+func (h *StreamHandler) requirePath(path string, followFinal bool) (string, *BrowseResponse) {
 	if path == "" {
 		return "", &BrowseResponse{Error: "path is required"}
 	}
 	if err := h.validatePath(path); err != nil {
+		return "", &BrowseResponse{Error: err.Error()}
+	}
+	if err := h.validateResolvedPath(path, followFinal); err != nil {
 		return "", &BrowseResponse{Error: err.Error()}
 	}
 	return filepath.Clean(path), nil
@@ -88,7 +93,7 @@ func (h *StreamHandler) requirePath(path string) (string, *BrowseResponse) {
 
 // browseList lists directory contents with pagination.
 func (h *StreamHandler) browseList(req *BrowseRequest) *BrowseResponse {
-	cleanPath, errResp := h.requirePath(req.Path)
+	cleanPath, errResp := h.requirePath(req.Path, true)
 	if errResp != nil {
 		return errResp
 	}
@@ -159,7 +164,7 @@ func (h *StreamHandler) browseList(req *BrowseRequest) *BrowseResponse {
 
 // browseStat returns info about a single path.
 func (h *StreamHandler) browseStat(req *BrowseRequest) *BrowseResponse {
-	cleanPath, errResp := h.requirePath(req.Path)
+	cleanPath, errResp := h.requirePath(req.Path, false)
 	if errResp != nil {
 		return errResp
 	}
@@ -177,7 +182,7 @@ func (h *StreamHandler) browseStat(req *BrowseRequest) *BrowseResponse {
 
 // browseChmod changes file permissions.
 func (h *StreamHandler) browseChmod(req *BrowseRequest) *BrowseResponse {
-	cleanPath, errResp := h.requirePath(req.Path)
+	cleanPath, errResp := h.requirePath(req.Path, true)
 	if errResp != nil {
 		return errResp
 	}
@@ -204,7 +209,7 @@ func (h *StreamHandler) browseChmod(req *BrowseRequest) *BrowseResponse {
 
 // browseDelete deletes a file or directory.
 func (h *StreamHandler) browseDelete(req *BrowseRequest) *BrowseResponse {
-	cleanPath, errResp := h.requirePath(req.Path)
+	cleanPath, errResp := h.requirePath(req.Path, false)
 	if errResp != nil {
 		return errResp
 	}
@@ -215,8 +220,9 @@ func (h *StreamHandler) browseDelete(req *BrowseRequest) *BrowseResponse {
 		return &BrowseResponse{Error: err.Error()}
 	}
 
-	// Guard: non-empty directories require the recursive flag
-	if entry.IsDir {
+	// Guard: non-empty directories require the recursive flag.
+	// A symlink to a directory is removed as a link and never read through.
+	if entry.IsDir && !entry.IsSymlink {
 		dirEntries, err := os.ReadDir(cleanPath)
 		if err != nil {
 			return &BrowseResponse{Error: fmt.Sprintf("failed to read directory: %v", err)}
@@ -228,7 +234,7 @@ func (h *StreamHandler) browseDelete(req *BrowseRequest) *BrowseResponse {
 
 	// RemoveAll handles non-empty directories; Remove handles files and empty directories
 	removeFunc := os.Remove
-	if req.Recursive && entry.IsDir {
+	if req.Recursive && entry.IsDir && !entry.IsSymlink {
 		removeFunc = os.RemoveAll
 	}
 	if err := removeFunc(cleanPath); err != nil {
